@@ -69,6 +69,16 @@ CHECKS = {
     note="Assumed: A1 reals; A8 np.linalg.norm is |.| on scalars; percentage_as_number is trusted (string parsing); 'algebraically identical rewritings earn full credit' is decidable here only "
          "through the bounded tier (it needs the parser and real identities in floats).",
     design="6/C04"),
+ 'C18': dict(
+    technique="contract-based deductive verification (pyvc on the real StringGrader.check_response / construct_message with the cleaning and regex full-match as uninterpreted symbols); exhaustive bounded check of clean_input as stand-in",
+    text="Proved for every configuration (all modes, all explain_* policies, any pattern) with CLEAN (the cleaning) and FULL (regex full match) abstract: a validation pattern that does not "
+         "match the ENTIRE cleaned submission is refused exactly as explain_validation prescribes, in every mode; a non-matching expected answer is a ConfigError in exact mode; exact mode "
+         "gives the answer's credit iff the two cleaned strings are identical, else a zero result; accept_any/accept_nonempty accept iff length >= min_length (>= 1 for accept_nonempty) and "
+         "words >= min_words, refused per explain_minimums otherwise; construct_message implements err/msg/None. (The full-match clause did not hold before fix: commit cb0a131.) "
+         "Bounded (not proved): clean_input against the statement's normalisation for all strings up to length 4/5 over a 9-character alphabet x 16 flag combinations; regex and mode grids.",
+    note="Assumed: A7 re.fullmatch(p, s) is None iff s is not in L(p); A6 str.split() only through its length; clean_input is a TRUSTED contract in the proof (string solvers cannot decide its replace chains) "
+         "and is decided only by the bounded enumeration. StringGrader.__call__ (empty expect in accept-any modes) is bounded-only.",
+    design="6/C18"),
 }
 
 NOT_YET = {}
